@@ -184,16 +184,19 @@ def loop_heads(func):
     return [h for (_, h) in sorted(out, reverse=True)]
 
 
+def _writes_local(place):
+    """does an assignment to this place change the local itself (not merely the memory a reference in it points to)?"""
+    return place is not None and not any(p and p[0] == 'deref' for p in place.proj)
+
+
 def assigned_in(func, blocks):
     out = set()
     for b in blocks:
         bb = func.blocks[b]
         for st in bb.stmts:
-            if st.kind == 'assign' and st.place is not None:
+            if _writes_local(st.place):
                 out.add(st.place.local)
-            elif st.place is not None:
-                out.add(st.place.local)
-        if bb.term.kind == 'call' and bb.term.data.get('dest') is not None:
+        if bb.term.kind == 'call' and _writes_local(bb.term.data.get('dest')):
             out.add(bb.term.data['dest'].local)
     return out
 
